@@ -13,6 +13,8 @@ pub(crate) fn check_tileset_head(data: &[u8]) -> bool {
             if w.tile_w == 0 || w.tile_h == 0 {
                 assert!(false, "a zero tile size must be rejected (tile lookups divide by it)");
             }
+            // Tileset::image() is documented to be tile_height * tile_count pixels high: that must be a u32
+            assert!(w.tile_count as u64 * w.tile_h as u64 <= u32::MAX as u64, "a tileset whose strip image is higher than u32::MAX rows must be rejected");
             assert!(t.id == w.id && t.tile_count == w.tile_count, "tileset id and tile count");
             assert!(t.tile_size.width() == w.tile_w && t.tile_size.height() == w.tile_h, "tile size");
             assert!(t.base_index == w.base_index, "base index (signed)");
@@ -26,7 +28,7 @@ pub(crate) fn check_tileset_head(data: &[u8]) -> bool {
             assert!(t.pixels.is_none(), "no pixels without flag bit 1");
         }
         (Err(_), None) => {}
-        (Err(_), Some(w)) => assert!(w.tile_w == 0 || w.tile_h == 0, "decoder rejected a well-formed tileset header"),
+        (Err(_), Some(w)) => assert!(w.tile_w == 0 || w.tile_h == 0 || w.tile_count as u64 * w.tile_h as u64 > u32::MAX as u64, "decoder rejected a well-formed tileset header"),
         (Ok(_), None) => assert!(false, "decoder accepted a tileset chunk the format rejects"),
     }
     core::mem::forget(got); // dropping io::Error (bit-packed pointer repr) is very expensive for CBMC
